@@ -36,7 +36,13 @@ def run(ctx):
     # products count through utils.compositions: its enumeration must be complete and within bounds
     from ..engines import sizecheck as SC
     SC.s0_compositions(ctx)
+    SC.s3_ensure_level(ctx)
+    ctx.floor("S3", 4)
     ctx.floor("S0", 4)
+    # the parameter maps are static methods bound by class name: an override nobody names never runs
+    from ..engines import dispatch as DP
+    DP.d2_static_overrides_are_named(ctx, ("Constructor",))
+    ctx.floor("D2", 4)
     from ..engines import mapplumbing as M
     from ..engines import sampler as U
     M.m6_product_enumeration(ctx)
